@@ -286,6 +286,9 @@ def run(ctx):
                 good = any((a.startswith("Gt(") and a.endswith(", 0)") and val == "True") or (a.startswith("Ge(") and a.endswith(", 1)") and val == "True")
                            or (a.startswith("Eq(") and a.endswith(", 0)") and val == "False") or (a.startswith("Ne(") and a.endswith(", 0)") and val == "True")
                            for a, val in pos)
+                # `Ok(0) => Err(..), Ok(v) => Ok(v)`: zero excluded by pattern on the unsigned payload
+                if not good:
+                    good = any(val.startswith("not in") and re.search(r"\b0\b", val) and re.search(r"\.Ok\.0$|parse", a) for a, val in l.label)
                 if not good:
                     bad = "returns Ok on path %s" % (l.label,)
                 okl.append(l)
